@@ -26,8 +26,29 @@ LINK_MU = {'LIdentity': 'Gen_IdentityLink_mu 1', 'LLog': 'Gen_LogLink_mu 1', 'LL
 PRIM = {'DNormal': ('normal', ['loc', 'scale'], 'NormalDist'), 'DBinomial': ('binomial', ['n', 'p'], 'BinomialDist'),
         'DPoisson': ('poisson', ['lam'], 'PoissonDist'), 'DGamma': ('gamma', ['shape', 'scale'], 'GammaDist'),
         'DInvGauss': ('wald', ['mean', 'scale'], 'InvGaussDist')}
-LOAD = 2.0 ** -26
-FINDING = 'C17-S19-absolute-diagonal-loading'
+SQRT_EPS = float(np.sqrt(np.finfo(np.float64).eps))      # 2^-26
+
+
+def loaded(cov, scale):
+    """the covariance the repaired code hands to the sampler, computed the same way in binary64:
+    load_diagonal(cov, load=np.sqrt(EPS) * distribution.scale) = cov + np.eye(n) * load"""
+    cov = np.asarray(cov, dtype=float)
+    return cov + np.eye(cov.shape[0]) * (np.sqrt(np.finfo(np.float64).eps) * scale)
+
+
+def close_to_reported(passed, cov, scale):
+    """the property statement, independent of how the load is computed: equal off the diagonal, diagonal excess in
+    [0, 2^-26 scale] (up to the rounding of the addition, one ulp of the diagonal entry)"""
+    passed, cov = np.asarray(passed, dtype=float), np.asarray(cov, dtype=float)
+    if passed.shape != cov.shape:
+        return False, 'shape %s' % (passed.shape,)
+    diff = passed - cov
+    off = diff - np.diag(np.diag(diff))
+    bound = SQRT_EPS * abs(scale) * (1 + 1e-6)
+    dg = np.diag(diff)
+    ulp = 2.0 ** -51 * np.abs(np.diag(passed))
+    ok = (off == 0).all() and (dg >= -ulp).all() and (dg <= bound + ulp).all()
+    return bool(ok), dict(max_offdiag_diff=float(np.abs(off).max()), max_diag_excess=float(dg.max()), allowed=float(bound), scale=float(scale))
 
 
 class Wrap:
@@ -88,7 +109,8 @@ def viol(res, what, d, observed, expected, finding=None, **extra):
 
 
 def witness_small_units(res):
-    """deterministic witness for the absolute loading: the same data in small units"""
+    """regression probe for the repaired S19 (absolute diagonal loading): the same data in small units; the variance of the
+    simulated linear predictor must be the reported one (4000 draws: median ratio within 15%)"""
     import pygam
     x = np.linspace(0, 1, 60)
     rs = np.random.RandomState(5)
@@ -112,17 +134,15 @@ def witness_small_units(res):
     finally:
         np.random.set_state(state)
     passed = np.asarray(rec[0]['cov'])
-    lp = draws @ B.T
-    emp = lp.var(axis=0)
+    emp = (draws @ B.T).var(axis=0)
     ratio_emp = float(np.median(emp / var))
-    ratio_thy = float(np.median(1 + LOAD * (B * B).sum(axis=1) / var))
+    ok, info = close_to_reported(passed, cov, float(gam.distribution.scale))
     res.case(('witness', 'small-units'))
     d = dict(model='LinearGAM(s(0, n_splines=8), fit_intercept=False)', X='linspace(0,1,60)', y='1e-6*(sin(6x)+0.3*RandomState(5).randn(60))', n_draws=4000, seed=12345)
-    if not np.array_equal(passed, cov):
-        viol(res, 'covariance handed to multivariate_normal is not the reported coefficient covariance: statistics_[cov] + 2^-26 I (absolute loading); '
-                  'variance of the simulated linear predictor / reported variance (median over rows) is far from 1', d,
-             dict(max_abs_diff_diag=float(np.max(np.abs(np.diag(passed) - np.diag(cov)))), largest_reported_diag=float(np.max(np.diag(cov))),
-                  variance_ratio_empirical=ratio_emp, variance_ratio_from_loading=ratio_thy), dict(variance_ratio=1.0), finding=FINDING)
+    if not ok or not (0.85 <= ratio_emp <= 1.15):
+        viol(res, 'response in small units: the covariance handed to multivariate_normal is not the reported coefficient covariance (+ 2^-26 scale on the diagonal) / '
+                  'the variance of the simulated linear predictor is not the reported variance', d,
+             dict(info if isinstance(info, dict) else dict(info=info), largest_reported_diag=float(np.max(np.diag(cov))), variance_ratio_empirical=ratio_emp), dict(variance_ratio=1.0))
 
 
 def statistical(res, gam, scn, d, rng):
@@ -136,7 +156,7 @@ def statistical(res, gam, scn, d, rng):
     finally:
         np.random.set_state(state)
     coef = np.asarray(gam.coef_, dtype=float)
-    C = np.asarray(gam.statistics_['cov'], dtype=float) + LOAD * np.eye(len(coef))
+    C = loaded(gam.statistics_['cov'], float(gam.distribution.scale))
     sd = np.sqrt(np.maximum(np.diag(C), 0))
     zmean = np.abs(draws.mean(axis=0) - coef) / (sd / math.sqrt(N) + 1e-300)
     S = np.cov(draws.T, bias=True).reshape(len(coef), len(coef))
@@ -147,6 +167,40 @@ def statistical(res, gam, scn, d, rng):
     if zmean.max() > 7 or zcov.max() > 7:
         viol(res, 'coefficient draws (real generator, 20000 draws) are not centred on coef_ with covariance statistics_[cov] (+ loading) within 7 sigma '
                   '(statistical test)', d, dict(max_z_mean=float(zmean.max()), max_z_cov=float(zcov.max())), '<= 7')
+
+
+def validates_flag():
+    """the generated flag: does _sample_coef contain the data-validation block?"""
+    import os
+    import re
+    txt = open(os.path.join(common.COQ, 'Gen', 'Sample.v')).read()
+    m = re.search(r'Definition Gen_sample_validates_data : bool := (true|false)\.', txt)
+    return None if m is None else (m.group(1) == 'true')
+
+
+def data_validation(res, gam, scn, d, flag):
+    """invalid y / weights with one bootstrap: ValueError iff the source contains the validation block (generated flag)"""
+    X, y = scn['X'], scn['y']
+    ybad = np.array(y, dtype=float).copy()
+    ybad[0] = np.nan
+    wbad = np.ones(len(y))
+    wbad[0] = np.nan
+    for what, kw in (('y with NaN', dict(y=ybad)), ('y too short', dict(y=np.array(y[:-1]))), ('weights with NaN', dict(y=y, weights=wbad)),
+                     ('weights too short', dict(y=y, weights=np.ones(len(y) + 1)))):
+        raised = None
+        try:
+            with np.errstate(all='ignore'):
+                gam.sample(X, kw['y'], quantity='coef', weights=kw.get('weights'), n_draws=2, n_bootstraps=1)
+        except ValueError:
+            raised = 'ValueError'
+        except Exception as e:
+            raised = type(e).__name__
+        res.case(('data-validation', d['index'], what))
+        res.count('invalid data: %s -> %s' % (what, raised))
+        if flag and raised != 'ValueError':
+            viol(res, 'sample(n_bootstraps=1) did not reject invalid data although _sample_coef contains the validation block', d, raised, 'ValueError', invalid=what)
+        if flag is False and raised is not None:
+            viol(res, 'sample(n_bootstraps=1) rejected data although the generated model has no validation block', d, raised, 'draws', invalid=what)
 
 
 def rejections(res, gam, scn, d, cls):
@@ -184,7 +238,7 @@ def run(res):
     res.rule = ('seeded fitted models of all six classes x regimes x weights x term mixes; per model and quantity in {coef, mu, y}: sample(...) with '
                 'n_bootstraps=1, random n_draws, sample_at_X given (training / interior / extrapolation rows) or None, run with np.random.choice, '
                 'np.random.multivariate_normal and the family primitive recorded from the harness; chosen coefficient draws are fed back. Compared: '
-                'mean argument == coef_ and cov argument == statistics_[cov] + 2^-26 I bit for bit, size == n_draws, one call; coef output == the fed draws; '
+                'mean argument == coef_ and cov argument == statistics_[cov] + 2^-26 scale I bit for bit (and, independently, equal off the diagonal with diagonal excess <= 2^-26 scale), size == n_draws, one call; coef output == the fed draws; '
                 'mu output == inverse link(modelmat(sample_at_X) . draw) (1e-9 relative to sum |terms|; a subset executed in Coq on the GENERATED '
                 'definitions by `interval`); primitive arguments == generated sampler argument expressions at those means (interval) and y output == '
                 'primitive output; shapes; rejections and their order; plus a 20000-draw 7-sigma test with the real generator (statistical, not a proof).')
@@ -193,6 +247,8 @@ def run(res):
     goals, meta, goals6, meta6 = [], [], [], []
     regimes = ['n>m', 'n>m', 'n=m', 'n<m']
     nstat = 0
+    inflation = []
+    flag = validates_flag()
     for i in range(nfits):
         cls = gen_models.CLASSES[i % 6]
         regime = regimes[(i // 6) % 4]
@@ -212,6 +268,7 @@ def run(res):
         res.count('%s %s' % (cls, regime))
         link, fam = gen_models.FAMILY[cls]
         m = len(coef)
+        sc0 = float(gam.distribution.scale)
         nprng = np.random.RandomState(rng.randrange(1 << 30))
         for quantity in ('coef', 'mu', 'y'):
             nd = rng.choice([1, 2, 3, 5])
@@ -237,23 +294,25 @@ def run(res):
                 viol(res, 'np.random.choice arguments', dd, repr(ch), 'arange(1), size=n_draws, replace=True')
             if not np.array_equal(np.asarray(a.get('mean')), coef):
                 viol(res, 'mean handed to multivariate_normal is not the fitted coefficient vector', dd, np.asarray(a.get('mean')).tolist(), coef.tolist())
-            if not np.array_equal(np.asarray(a.get('cov')), cov + np.eye(m) * LOAD):
-                viol(res, 'covariance handed to multivariate_normal is not statistics_[cov] + 2^-26 I', dd,
-                     dict(max_abs_diff=float(np.max(np.abs(np.asarray(a.get('cov')) - cov - np.eye(m) * LOAD))) if np.shape(a.get('cov')) == cov.shape else repr(np.shape(a.get('cov')))), 0.0)
+            if not np.array_equal(np.asarray(a.get('cov')), loaded(cov, sc0)):
+                viol(res, 'covariance handed to multivariate_normal is not statistics_[cov] + 2^-26 scale I (bit for bit)', dd,
+                     dict(max_abs_diff=float(np.max(np.abs(np.asarray(a.get('cov')) - loaded(cov, sc0)))) if np.shape(a.get('cov')) == cov.shape else repr(np.shape(a.get('cov')))), 0.0)
             if a.get('size') != nd or any(k.startswith('extra') for k in a):
                 viol(res, 'size handed to multivariate_normal is not n_draws', dd, repr(a.get('size')), nd)
-            # the property statement itself (covariance of the draws = reported covariance), measured on an identifiable functional:
-            # relative inflation of the variance of the linear predictor at the training rows caused by the loading
+            # the property statement itself (covariance of the draws = reported covariance), independent of the load formula
             if quantity == 'coef':
+                okc, info = close_to_reported(a.get('cov'), cov, sc0)
+                res.case((i, 'cov-close'))
+                if not okc:
+                    viol(res, 'covariance of the simulated coefficients differs from the reported covariance by more than 2^-26 scale on the diagonal '
+                              '(or off the diagonal)', dd, info, 'equal off the diagonal; diagonal excess in [0, 2^-26 scale]')
+                # measured, not judged: effect of the loading on an identifiable functional (variance of the linear predictor at training rows)
                 Bt = gam._modelmat(scn['X']).toarray()
                 var = np.einsum('ij,jk,ik->i', Bt, cov, Bt)
-                infl = LOAD * (Bt * Bt).sum(axis=1) / np.where(var > 0, var, np.nan)
+                infl = SQRT_EPS * sc0 * (Bt * Bt).sum(axis=1) / np.where(var > 0, var, np.nan)
                 worst = float(np.nanmax(infl)) if np.isfinite(infl).any() else 0.0
-                res.count('loading inflates lp variance by > 0.1%' if worst > 1e-3 else 'loading inflates lp variance by <= 0.1%')
-                if worst > 1e-3:
-                    viol(res, 'covariance of the simulated coefficients is statistics_[cov] + 2^-26 I, not the reported covariance: the variance of the simulated '
-                              'linear predictor exceeds the reported one by more than 0.1% at a training row', dd,
-                         dict(relative_inflation=worst, loading=LOAD), 'covariance of draws = statistics_[cov]', finding=FINDING)
+                inflation.append(worst)
+                res.count('loading inflates lp variance by ' + ('> 1%' if worst > 1e-2 else '0.1% .. 1%' if worst > 1e-3 else '<= 0.1%'))
             # --- outputs
             B = gam._modelmat(Xeff).toarray()
             nq = B.shape[0]
@@ -340,10 +399,16 @@ def run(res):
                 viol(res, 'shape of sample(quantity=%s)' % quantity, dict(d, quantity=quantity, n_draws=nd), list(out.shape), list(want))
         if i < 6 or res.tier != 'quick':
             rejections(res, gam, scn, d, cls)
+            data_validation(res, gam, scn, d, flag)
         if nstat < (4 if res.tier == 'quick' else 30) and m <= 12:
             nstat += 1
             statistical(res, gam, scn, d, rng)
     witness_small_units(res)
+    if inflation:
+        res.notes.append('measured (not a violation): the diagonal loading 2^-26 scale inflates the variance of the simulated linear predictor at training rows by at most '
+                         '%.3g (median over models %.3g) = max over rows of 2^-26 ||row||^2 scale / (row cov row\')'
+                         % (max(inflation), float(np.median(inflation))))
+    res.extra['sample_validates_data'] = flag
     with common.CaseDir(PROP) as cd:
         failing, errors = common.run_interval_goals(cd, HEADER, goals, tactic='c17', shard=4, timeout=300)
         failing6, errors6 = common.run_interval_goals(cd, HEADER6, goals6, tactic='c06', shard=40, prefix='ival6', timeout=300)
